@@ -527,6 +527,8 @@ class RaceHarness(Harness):
         rc_docs = []
         rc_events = []  # (vtime, msg class) delivered to race control
         worker_cells = {}
+        worker_clients = {}
+        pending_cct = []
         cct = []  # CompleteCurrentTask handled: (vtime, worker cell aid)
         jpr = []  # JoinPointReached sent by worker
         driver_sent_cct = []
@@ -541,7 +543,10 @@ class RaceHarness(Harness):
             elif cname == "Worker":
                 worker_cells[cell.aid] = cell
                 if mname == "CompleteCurrentTask":
-                    cct.append((system.clock.now, cell.aid))
+                    # judged from the instant the handler has *returned* (the actor thread may be descheduled inside it)
+                    pending_cct.append(cell.aid)
+                if mname == "StartWorker":
+                    worker_clients[cell.aid] = [a["client_id"] for a in msg.client_allocations.allocations]
                 if mname == "StartWorker" and "armed" in state and not state.get("armed_done"):
                     # faults placed relative to the start of load generation
                     state["armed_done"] = True
@@ -559,7 +564,16 @@ class RaceHarness(Harness):
                         loaded.append(("task", (el.name, el.operation.type, el.clients, el.iterations, el.warmup_iterations, el.time_period, sorted(el.tags), el.completes_parent, el.any_completes_parent)))
                 system.loaded_schedule = loaded
 
+        def handled(cell, msg):
+            if type(msg).__name__ == "CompleteCurrentTask" and cell.aid in pending_cct:
+                pending_cct.remove(cell.aid)
+                cct.append((sim_clock[0].now, cell.aid))
+
+        sim_clock = []
+
         def prepare(system, simes, out, rcfg):
+            system.on_handled = handled
+            sim_clock.append(system.clock)
             if not fault:
                 return
             k = fault["kind"]
@@ -633,7 +647,7 @@ class RaceHarness(Harness):
                     if out.hang:
                         bad("liveness", "hang-empty-schedule", f"race with an empty filtered schedule hangs: {out.hang}")
                 else:
-                    self.oracle_c01(cfg, expected_schedule, out, rc_events, info, cct, bad, strict_counts=(prop in ("C01", "C11")))
+                    self.oracle_c01(cfg, expected_schedule, out, rc_events, info, cct, bad, strict_counts=(prop in ("C01", "C11")), worker_clients=worker_clients)
                     if prop == "C07":
                         self.oracle_c07(cfg, expected_schedule, out, rc_docs, info, bad)
                     if prop == "C11":
@@ -686,7 +700,7 @@ class RaceHarness(Harness):
         return task in first_el or any(n in seen for n in order[idx:]) or any(h[2] == "executor-start" for h in system.history)
 
     # -- C01 ---------------------------------------------------------------------------------
-    def oracle_c01(self, cfg, schedule, out, rc_events, info, cct, bad, strict_counts=True):
+    def oracle_c01(self, cfg, schedule, out, rc_events, info, cct, bad, strict_counts=True, worker_clients=None):
         from esrally.rally import ExitStatus
 
         system, simes = out.system, out.simes
@@ -744,6 +758,27 @@ class RaceHarness(Harness):
                 if not any(v == "full" or v == "some-client-full" for v in full.values()):
                     bad("completed-by", "any-none-finished", f"element {ei} (completed-by any) ended although no task ran to completion: {full}")
             # CompleteCurrentTask must not be broadcast for elements without completed-by
+        # 3b. once a worker has handled CompleteCurrentTask, each of its clients issues at most one further request of the element
+        #     (the one whose throttle sleep was already running; the flag is re-read after every response)
+        spans = info["element_spans"]
+        for T, waid in cct:
+            running = [ei for ei, sp in spans.items() if sp["first_send"] <= T]
+            if not running:
+                continue
+            ei = max(running)
+            el = schedule[ei]
+            if "parallel" not in el or not el["parallel"].get("completed-by"):
+                continue
+            cb = el["parallel"]["completed-by"]
+            mine = set((worker_clients or {}).get(waid, []))
+            later = {}
+            for (task, client, key), t_first in info["first_send_of_request"].items():
+                if client in mine and info["element_of"].get(task) == ei and task != cb and t_first > T:
+                    later.setdefault((task, client), []).append(t_first)
+            for (task, client), ts in later.items():
+                if len(ts) > 1:
+                    bad("completed-by", "kept-running-after-complete", f"element {ei}: client {client} issued {len(ts)} further requests of task {task} after its worker had handled CompleteCurrentTask at {T:.6f} (at {sorted(ts)[:3]})")
+                    break
         # 3a. CompleteCurrentTask only while an element with completed-by is running
         if cct and not any("parallel" in el and el["parallel"].get("completed-by") for el in schedule):
             bad("completed-by", "spurious-broadcast", f"CompleteCurrentTask was delivered {len(cct)} times although no element uses completed-by")
@@ -1019,6 +1054,7 @@ def analyse(cfg, schedule, out, rc_events, rc_docs):
     composite = {}
     admin_by_client = {}
     logical = {}  # (task, client_id) -> set of logical request keys
+    first_send = {}
     types = {}
     unknown = 0
     for w in simes.log:
@@ -1048,7 +1084,7 @@ def analyse(cfg, schedule, out, rc_events, rc_docs):
             task = parts[1]
             comp = composite.setdefault(task, {}).setdefault(w.client_id, {})
             comp[parts[2]] = comp.get(parts[2], 0) + 1
-            key = ("composite", parts[2], comp[parts[2]])
+            key = ("composite", comp[parts[2]])  # the k-th occurrence of any leaf belongs to the k-th composite request of this client
         elif parts[0] == "_cluster" and len(parts) >= 3 and parts[2].startswith("idx-"):
             task = parts[2][4:]
             admin[task] = admin.get(task, 0) + 1
@@ -1069,6 +1105,9 @@ def analyse(cfg, schedule, out, rc_events, rc_docs):
             spans.setdefault(-1, {"first_send": w.t_send, "last_recv": w.t_recv or w.t_send, "first_send_wire": w, "last_recv_wire": w})
             continue
         logical.setdefault((task, w.client_id), set()).add(key)
+        fk = (task, w.client_id, key)
+        if fk not in first_send or w.t_send < first_send[fk]:
+            first_send[fk] = w.t_send
         ei = element_of[task]
         sp = spans.get(ei)
         recv = w.t_recv if w.t_recv is not None else w.t_send
@@ -1140,6 +1179,8 @@ def analyse(cfg, schedule, out, rc_events, rc_docs):
         "expected_records": expected_records,
         "expected_dependent": expected_dependent,
         "composite": composite,
+        "first_send_of_request": first_send,
+        "element_of": element_of,
         "expected_types": expected_types,
         "logical_requests": sum(expected_records.values()),
         "probes": probes,
